@@ -15,6 +15,21 @@ theorem bind_ok {ε α β : Type} {x : Except ε α} {f : α → Except ε β} {
   | error e => cases h
   | ok a => exact ⟨a, rfl, h⟩
 
+/-- the C side (strict reading) stopped where the model does not vouch for it: a signed 32-bit overflow (undefined behaviour),
+    or a `/` / `%` with a negative operand (defined in C, but not Python's `//` / `%`) -/
+def UB {α : Type} (r : Except Err α) : Prop := r = .error .overflow ∨ r = .error .signedDiv
+
+theorem ub_bind {α β : Type} {x : Except Err α} (f : α → Except Err β) (h : UB x) : UB (x >>= f) := by
+  rcases h with h | h <;> rw [h]
+  · exact .inl rfl
+  · exact .inr rfl
+
+theorem UB_ne_fuel {α : Type} {r : Except Err α} (h : UB r) : r ≠ .error .fuel := by
+  rcases h with h | h <;> rw [h] <;> intro e <;> cases e
+
+theorem UB_not_ok {α : Type} {r : Except Err α} {a : α} (h : UB r) : r ≠ .ok a := by
+  rcases h with h | h <;> rw [h] <;> intro e <;> cases e
+
 /-- the simulation relation between the Python store and the C store, for the names declared in `te` -/
 def Rel (te : C.TyEnv) (sp sc : Store) : Prop :=
   ∀ x t, te.lookup x = some t → ∀ pv, sp.get x = some pv →
@@ -42,6 +57,9 @@ theorem typeOf_eq_inferTy (te : C.TyEnv) (e : Expr) (h : e.wt te = true) : C.typ
   | ite c a b _ iha ihb =>
     simp only [Expr.wt, Bool.and_eq_true, beq_iff_eq] at h
     simp only [C.typeOf, inferTy, iha h.1.1.2, ihb h.1.2]
+  | mm k a b iha ihb =>
+    simp only [Expr.wt, Bool.and_eq_true, beq_iff_eq] at h
+    simp only [C.typeOf, inferTy, iha h.1.1.1, ihb h.1.1.2, h.1.2, h.2, if_true]
   | _ => simp only [C.typeOf, inferTy]
 
 /-- a bool-typed well-typed expression evaluates (in Python) to a bool -/
@@ -95,13 +113,67 @@ theorem bool_val (te : C.TyEnv) (sp sc : Store) (hrel : Rel te sp sc) (e : Expr)
     split at hpy
     · exact iha v hwt.1.1.2 (hwt.2 ▸ hty) hpy
     · exact ihb v hwt.1.2 hty hpy
+  | abs a => simp [inferTy] at hty
+  | mm k a b => simp [inferTy] at hty
 
-theorem chk_cases (r : Int) : C.chk r = .ok (.int r) ∨ C.chk r = .error .overflow := by
-  unfold C.chk; split <;> simp
+theorem chk_cases (r : Int) : C.chk r = .ok (.int r) ∨ UB (C.chk r) := by
+  unfold C.chk UB; split <;> simp
+
+theorem pyVal_toInt (op : BinOp) (x y : Val) : (op.pyVal x y).toInt = op.eval x.toInt y.toInt := by
+  cases op <;> cases x <;> cases y <;> try rfl
+  all_goals (rename_i a b; cases a <;> cases b <;> decide)
+
+/-- Python's value of a binary operation, converted to C `int`, is the operator on the operands' integer values -/
+theorem conv_pyVal (op : BinOp) (x y : Val) : C.conv .int (op.pyVal x y) = .int (op.eval x.toInt y.toInt) := by
+  show Val.int (op.pyVal x y).toInt = _
+  rw [pyVal_toInt]
+
+theorem pyEval_ok {op : BinOp} {x y v : Val} (h : op.pyEval x y = .ok v) :
+    v = op.pyVal x y ∧ (op.isDiv = true → y.toInt ≠ 0) := by
+  unfold BinOp.pyEval at h
+  split at h
+  · cases h
+  · rename_i hz
+    cases h
+    exact ⟨rfl, fun hd h0 => hz ⟨hd, h0⟩⟩
+
+theorem ceval_eq_eval_of_not_div {op : BinOp} (h : op.isDiv = false) (a b : Int) : op.ceval a b = op.eval a b := by
+  cases op <;> first | rfl | cases h
+
+/-- on a non-negative dividend and a positive divisor C's `/`, `%` are Python's `//`, `%` -/
+theorem ceval_eq_eval_of_nonneg (op : BinOp) {a b : Int} (ha : 0 ≤ a) (hb : 0 ≤ b) : op.ceval a b = op.eval a b := by
+  cases op <;> try rfl
+  · exact (Int.fdiv_eq_tdiv_of_nonneg ha hb).symm
+  · show a.tmod b = a.fmod b
+    rw [Int.fmod_eq_emod_of_nonneg _ hb, Int.tmod_eq_emod_of_nonneg ha]
+
+/-- the C operator (strict reading) against Python's: the same integer, or overflow, or a signed division -/
+theorem binop_cases (op : BinOp) (a b : Int) (hz : op.isDiv = true → b ≠ 0) :
+    C.binop op a b = .ok (.int (op.eval a b)) ∨ UB (C.binop op a b) := by
+  unfold C.binop
+  by_cases hd : op.isDiv = true
+  · rw [if_pos hd, if_neg (hz hd)]
+    by_cases hs : a < 0 ∨ b < 0
+    · rw [if_pos ⟨rfl, hs⟩]; right; exact .inr rfl
+    · rw [if_neg (fun h => hs h.2)]
+      have ha : 0 ≤ a := by omega
+      have hb : 0 ≤ b := by omega
+      rcases chk_cases (a.tdiv b) with h | h
+      · rw [h, ok_bind, ceval_eq_eval_of_nonneg op ha hb]
+        exact chk_cases _
+      · right; exact ub_bind _ h
+  · rw [if_neg hd, ceval_eq_eval_of_not_div (by simpa using hd)]
+    exact chk_cases _
+
+/-- the macro and the Python builtin choose operands of the same integer value -/
+theorem cpick_toInt (k : MinMax) (x y : Val) :
+    (k.cpick (.int x.toInt) (.int y.toInt)).toInt = (k.pick x y).toInt := by
+  have hi : ∀ n : Int, (Val.int n).toInt = n := fun _ => rfl
+  cases k <;> simp only [MinMax.cpick, MinMax.pick, hi] <;> split <;> split <;> simp only [hi] <;> omega
 
 theorem expr_sim (te : C.TyEnv) (sp sc : Store) (hrel : Rel te sp sc) (e : Expr) (v : Val)
     (hwt : e.wt te = true) (hpy : Py.eval sp e = .ok v) :
-    C.eval te sc e = .ok (C.conv (inferTy te e) v) ∨ C.eval te sc e = .error .overflow := by
+    C.eval te sc e = .ok (C.conv (inferTy te e) v) ∨ UB (C.eval te sc e) := by
   induction e generalizing v with
   | int n => simp only [Py.eval] at hpy; cases hpy; left; rfl
   | bool b => simp only [Py.eval] at hpy; cases hpy; left; rfl
@@ -120,7 +192,7 @@ theorem expr_sim (te : C.TyEnv) (sp sc : Store) (hrel : Rel te sp sc) (e : Expr)
     rw [Py.eval] at hpy
     obtain ⟨x, hx, hpy⟩ := bind_ok hpy
     obtain ⟨y, hy, hpy⟩ := bind_ok hpy
-    cases hpy
+    obtain ⟨rfl, hz⟩ := pyEval_ok hpy
     rw [C.eval]
     rcases iha x hwt.1 hx with h | h
     · rw [h, ok_bind]
@@ -128,9 +200,10 @@ theorem expr_sim (te : C.TyEnv) (sp sc : Store) (hrel : Rel te sp sc) (e : Expr)
       · rw [h', ok_bind,
           conv_toInt _ x (fun ht => bool_val te sp sc hrel a x hwt.1 ht hx),
           conv_toInt _ y (fun ht => bool_val te sp sc hrel b y hwt.2 ht hy)]
-        exact chk_cases _
-      · rw [h']; right; rfl
-    · rw [h]; right; rfl
+        simp only [inferTy, conv_pyVal]
+        exact binop_cases _ _ _ hz
+      · right; exact ub_bind _ h'
+    · right; exact ub_bind _ h
   | neg a iha =>
     simp only [Expr.wt, Bool.and_eq_true, beq_iff_eq] at hwt
     rw [Py.eval] at hpy
@@ -141,7 +214,7 @@ theorem expr_sim (te : C.TyEnv) (sp sc : Store) (hrel : Rel te sp sc) (e : Expr)
     · rw [h, ok_bind, conv_toInt _ x (fun ht => bool_val te sp sc hrel a x hwt.1 ht hx)]
       simp only [inferTy, hwt.2, conv_int_int]
       exact chk_cases _
-    · rw [h]; right; rfl
+    · right; exact ub_bind _ h
   | cmp op a b iha ihb =>
     simp only [Expr.wt, Bool.and_eq_true] at hwt
     rw [Py.eval] at hpy
@@ -156,8 +229,8 @@ theorem expr_sim (te : C.TyEnv) (sp sc : Store) (hrel : Rel te sp sc) (e : Expr)
           conv_toInt _ x (fun ht => bool_val te sp sc hrel a x hwt.1 ht hx),
           conv_toInt _ y (fun ht => bool_val te sp sc hrel b y hwt.2 ht hy)]
         left; rfl
-      · rw [h']; right; rfl
-    · rw [h]; right; rfl
+      · right; exact ub_bind _ h'
+    · right; exact ub_bind _ h
   | and a b iha ihb =>
     simp only [Expr.wt, Bool.and_eq_true, beq_iff_eq] at hwt
     rw [Py.eval] at hpy
@@ -170,14 +243,14 @@ theorem expr_sim (te : C.TyEnv) (sp sc : Store) (hrel : Rel te sp sc) (e : Expr)
         rw [if_pos htr]
         rcases ihb v hwt.1.1.2 hpy with h' | h'
         · rw [h', ok_bind, conv_truthy]; left; rfl
-        · rw [h']; right; rfl
+        · right; exact ub_bind _ h'
       · rename_i htr
         rw [if_neg htr]
         cases hpy
         left
         simp only [Bool.not_eq_true] at htr
         simp only [inferTy, C.conv, htr, pure_eq_ok]
-    · rw [h]; right; rfl
+    · right; exact ub_bind _ h
   | or a b iha ihb =>
     simp only [Expr.wt, Bool.and_eq_true, beq_iff_eq] at hwt
     rw [Py.eval] at hpy
@@ -195,8 +268,8 @@ theorem expr_sim (te : C.TyEnv) (sp sc : Store) (hrel : Rel te sp sc) (e : Expr)
         rw [if_neg htr]
         rcases ihb v hwt.1.1.2 hpy with h' | h'
         · rw [h', ok_bind, conv_truthy]; left; rfl
-        · rw [h']; right; rfl
-    · rw [h]; right; rfl
+        · right; exact ub_bind _ h'
+    · right; exact ub_bind _ h
   | not a iha =>
     simp only [Expr.wt] at hwt
     rw [Py.eval] at hpy
@@ -205,7 +278,7 @@ theorem expr_sim (te : C.TyEnv) (sp sc : Store) (hrel : Rel te sp sc) (e : Expr)
     rw [C.eval]
     rcases iha x hwt hx with h | h
     · rw [h, ok_bind, conv_truthy]; left; rfl
-    · rw [h]; right; rfl
+    · right; exact ub_bind _ h
   | ite c a b ihc iha ihb =>
     have hty := typeOf_eq_inferTy te _ hwt
     simp only [Expr.wt, Bool.and_eq_true, beq_iff_eq] at hwt
@@ -221,12 +294,47 @@ theorem expr_sim (te : C.TyEnv) (sp sc : Store) (hrel : Rel te sp sc) (e : Expr)
         rw [if_pos htr]
         rcases iha v hwt.1.1.2 hpy with h' | h'
         · rw [h', ok_bind]; dsimp only; rw [conv_idem]; left; rfl
-        · rw [h']; right; rfl
+        · right; exact ub_bind _ h'
       · rename_i htr
         rw [if_neg htr]
         rcases ihb v hwt.1.2 hpy with h' | h'
         · rw [h', ok_bind]; dsimp only; rw [← hwt.2, conv_idem]; left; rfl
-        · rw [h']; right; rfl
-    · rw [h]; right; rfl
+        · right; exact ub_bind _ h'
+    · right; exact ub_bind _ h
+  | abs a iha =>
+    simp only [Expr.wt] at hwt
+    rw [Py.eval] at hpy
+    obtain ⟨x, hx, hpy⟩ := bind_ok hpy
+    cases hpy
+    rw [C.eval]
+    rcases iha x hwt hx with h | h
+    · rw [h, ok_bind, conv_toInt _ x (fun ht => bool_val te sp sc hrel a x hwt ht hx)]
+      simp only [inferTy, conv_int_int]
+      by_cases hpos : x.toInt > 0
+      · rw [if_pos hpos]; left
+        have : ((x.toInt.natAbs : Nat) : Int) = x.toInt := by omega
+        rw [this]; rfl
+      · rw [if_neg hpos]
+        have : ((x.toInt.natAbs : Nat) : Int) = -x.toInt := by omega
+        rw [this]
+        exact chk_cases _
+    · right; exact ub_bind _ h
+  | mm k a b iha ihb =>
+    have hty := typeOf_eq_inferTy te _ hwt
+    simp only [Expr.wt, Bool.and_eq_true, beq_iff_eq] at hwt
+    rw [Py.eval] at hpy
+    obtain ⟨x, hx, hpy⟩ := bind_ok hpy
+    obtain ⟨y, hy, hpy⟩ := bind_ok hpy
+    cases hpy
+    rw [C.eval, hty]
+    rcases iha x hwt.1.1.1 hx with h | h
+    · rw [h, ok_bind]
+      rcases ihb y hwt.1.1.2 hy with h' | h'
+      · rw [h', ok_bind, hwt.1.2, hwt.2]
+        left
+        show Except.ok (Val.int (k.cpick (.int x.toInt) (.int y.toInt)).toInt) = .ok (Val.int (k.pick x y).toInt)
+        rw [cpick_toInt]
+      · right; exact ub_bind _ h'
+    · right; exact ub_bind _ h
 
 end Reduino.Lemmas.C01
